@@ -21,6 +21,8 @@
 #include <memory>
 #include <deque>
 #include <chrono>
+#include <atomic>
+#include <thread>
 #include <cstdio>
 #include <cstdarg>
 #include <cstring>
@@ -290,6 +292,35 @@ static void sync_solver(State &s)
   for (; k < s.pc.size(); k++) { SOLVER->push(); SOLVER->add(s.pc[k]); SOLVER_STACK.push_back(eid(s.pc[k])); }
 }
 
+// z3 4.8.12 does not always honour the solver's "timeout" parameter (some preprocessing phases are not
+// interruptible by it): a watchdog thread cancels a check() that runs past the query timeout, which then
+// answers unknown like a regular timeout
+static std::atomic<long long> CHECK_DEADLINE_MS{0};     // 0: no check in flight
+static long long now_ms() { return std::chrono::duration_cast<std::chrono::milliseconds>(std::chrono::steady_clock::now().time_since_epoch()).count(); }
+static void start_watchdog()
+{
+  static bool started = false;
+  if (started) return;
+  started = true;
+  std::thread([] {
+    for (;;)
+    {
+      std::this_thread::sleep_for(std::chrono::milliseconds(200));
+      long long d = CHECK_DEADLINE_MS.load();
+      if (d != 0 && now_ms() > d) { Z3_interrupt(Z); std::this_thread::sleep_for(std::chrono::milliseconds(800)); }
+    }
+  }).detach();
+}
+static z3::check_result guarded_check()
+{
+  start_watchdog();
+  CHECK_DEADLINE_MS.store(now_ms() + (long long)OPT.query_timeout_ms + 2000);
+  z3::check_result r;
+  try { r = SOLVER->check(); } catch (z3::exception &) { r = z3::unknown; }
+  CHECK_DEADLINE_MS.store(0);
+  return r;
+}
+
 // returns sat/unsat/unknown for pc && extra; on sat stores the model in *out when given
 static z3::check_result solve(State &s, const z3::expr *extra, std::shared_ptr<z3::model> *out)
 {
@@ -297,7 +328,7 @@ static z3::check_result solve(State &s, const z3::expr *extra, std::shared_ptr<z
   sync_solver(s);
   z3::check_result r;
   if (extra) { SOLVER->push(); SOLVER->add(*extra); }
-  r = SOLVER->check();
+  r = guarded_check();
   if (r == z3::sat && out) *out = std::make_shared<z3::model>(SOLVER->get_model());
   if (extra) SOLVER->pop();
   ST.queries++;
@@ -363,7 +394,9 @@ static std::vector<uint64_t> feasible_values(State &s, const z3::expr &e, unsign
   while (out.size() <= limit)
   {
     ST.queries++;
-    z3::check_result r = SOLVER->check();
+    z3::check_result r = guarded_check();
+    // an enumeration that needs thousands of solver calls must not outlive the engine's time budget
+    if (r == z3::sat && std::chrono::duration<double>(std::chrono::steady_clock::now() - t0).count() > 3.0 * OPT.query_timeout_ms / 1000.0) r = z3::unknown;
     if (r == z3::unknown)
     {
       if (OPT.tolerate_unknown) { SOLVER->pop(); ST.unknown_paths++; throw PathEnd{"solver unknown"}; }
@@ -451,7 +484,7 @@ static const std::set<unsigned> &varset_of(const z3::expr &c)
 }
 // feasible assignments of a small support: by concrete evaluation when the constraints mentioning the
 // support's variables mention nothing else (independence), otherwise by solver enumeration
-static std::vector<uint64_t> feasible_assignments(State &s, const Support &sp)
+static std::vector<uint64_t> feasible_assignments(State &s, const Support &sp, bool *too_wide = nullptr)
 {
   Timer tm(T_ENUM);
   std::set<unsigned> sv; for (auto &v : sp.vars) sv.insert(Z3_get_ast_id(Z, v));
@@ -466,6 +499,9 @@ static std::vector<uint64_t> feasible_assignments(State &s, const Support &sp)
       if (!only) { independent = false; break; }
       rel.push_back(c);
     }
+  // a support that is tied to other variables has to be enumerated by the solver, one call per assignment:
+  // beyond 10 bits the caller enumerates the distinct values of the expression itself instead
+  if (!independent && sp.bits > 10 && too_wide) { *too_wide = true; return {}; }
   if (!independent) return feasible_values(s, support_cat(sp), 70000);
   // cache keyed by the variables and the relevant constraints (all pinned, ids stable)
   static std::map<std::vector<unsigned>, std::vector<uint64_t>> cache;
